@@ -35,7 +35,7 @@ from ttconv.time_code import ClockTime
 class SrtParagraph:
   """SRT paragraph definition class"""
 
-  _EOL_SEQ_RE = re.compile(r"\n{2,}")
+  _EOL_SEQ_RE = re.compile(r"(?:\r\n|\r|\n){2,}")
 
   def __init__(self, identifier: int):
     self._id: int = identifier
